@@ -532,7 +532,44 @@ def _r1_cases(thorough: bool):
 # ------------------------------------------------------------------------------------------------
 # Part R2: OptimizationProblem <-> HDF
 # ------------------------------------------------------------------------------------------------
-PROBLEMS = ["rosenbrock", "power2", "maxdoe", "unsolved"]
+PROBLEMS = ["rosenbrock", "power2", "maxdoe", "unsolved", "lin_lp", "lin_sparse_lp", "lin_slsqp", "lin_sparse_unsolved"]
+LP_ALGOS = ["INTERIOR_POINT", "DUAL_SIMPLEX"]
+
+
+def _linear_problem(sparse: bool, maximize: bool, standardized: bool):
+    """A linear program: MDOLinearFunction objective, one inequality and one 2-d equality constraint.
+
+    min  x0 + 2 x1 - y + 0.5   s.t.  0.5 - x0 - x1 <= 0,  x1 + y - 1 = 0,  x0 - y + 0.25 = 0,  bounds;
+    optimum (0.75, 0, 1).  ``maximize`` states the same program as the maximization of the opposite objective.
+    """
+    from gemseo.algos.design_space import DesignSpace
+    from gemseo.algos.optimization_problem import OptimizationProblem
+    from gemseo.core.mdo_functions.mdo_linear_function import MDOLinearFunction
+    from scipy.sparse import csr_array
+
+    names = NAME_TABLES[_SEED % len(NAME_TABLES)]
+    ds = DesignSpace()
+    ds.add_variable(names[0], 2, "float", 0.0, 2.0, np.array([1.0, 0.5]))
+    ds.add_variable(names[1], 1, "float", -1.0, 3.0 + _SEED, 0.5)
+    nm = [names[0], names[1]]
+
+    def coef(a):
+        a = np.array(a, dtype=float)
+        return csr_array(np.atleast_2d(a)) if sparse else a
+
+    sign = -1.0 if maximize else 1.0
+    p = OptimizationProblem(ds, use_standardized_objective=standardized)
+    assert p.is_linear
+    p.objective = MDOLinearFunction(coef([sign * 1.0, sign * 2.0, -sign]), "cost", input_names=nm, f_type="obj", value_at_zero=sign * 0.5)
+    p.add_constraint(MDOLinearFunction(coef([-1.0, -1.0, 0.0]), "demand", input_names=nm, value_at_zero=0.5), constraint_type="ineq")
+    p.add_constraint(MDOLinearFunction(coef([[0.0, 1.0, 1.0], [1.0, 0.0, -1.0]]), "bal", input_names=nm, value_at_zero=np.array([-1.0, 0.25])), constraint_type="eq")
+    if maximize:
+        p.minimize_objective = False
+    p.tolerances.equality = 1e-5
+    p.tolerances.inequality = 3e-5
+    if not p.is_linear:
+        raise AssertionError("the harness problem is not linear")
+    return p
 
 
 def _custom_problem():
@@ -550,7 +587,9 @@ def _custom_problem():
     p.minimize_objective = False
     p.add_constraint(MDOFunction(lambda x: x[:2] - 1.5, "c_b", jac=lambda x: np.eye(2, 3), expr="x[:2]-1.5", input_names=nm, dim=2, output_names=["c_b0", "c_b1"]), constraint_type="ineq")
     p.add_constraint(MDOFunction(lambda x: np.array([x[2] - 1.0]), "c_a", jac=lambda x: np.array([[0.0, 0.0, 1.0]]), expr="n-1", input_names=nm, dim=1), constraint_type="eq", value=0.25)
-    p.add_observable(MDOFunction(lambda x: 3.0 * x[:2], "obs", jac=lambda x: 3.0 * np.eye(2, 3), expr="3x", input_names=nm, dim=2, output_names=["o_a", "o_b"]))
+    obs = MDOFunction(lambda x: 3.0 * x[:2], "obs0", jac=lambda x: 3.0 * np.eye(2, 3), expr="3x", input_names=nm, dim=2, output_names=["o_a", "o_b"])
+    obs.name = "obs"  # a renamed function: original_name stays "obs0"
+    p.add_observable(obs)
     p.tolerances.equality = 0.3
     p.tolerances.inequality = 0.002
     p.differentiation_step = 1e-5
@@ -583,6 +622,21 @@ def _make_problem(kind: str):
             p.objective.evaluate(x)
             p.constraints[0].evaluate(x)
         p.observables[0].evaluate(np.array([2.0, 0.25 + _SEED, 3.0]))
+    elif kind == "lin_lp":
+        p = _linear_problem(sparse=False, maximize=False, standardized=True)
+        execute_algo(p, algo_name=LP_ALGOS[_SEED % 2])
+    elif kind == "lin_sparse_lp":
+        p = _linear_problem(sparse=True, maximize=True, standardized=False)
+        execute_algo(p, algo_name=LP_ALGOS[(_SEED + 1) % 2])
+    elif kind == "lin_slsqp":
+        p = _linear_problem(sparse=False, maximize=True, standardized=True)
+        execute_algo(p, algo_name="SLSQP", max_iter=6 + _SEED % 3)
+    elif kind == "lin_sparse_unsolved":
+        p = _linear_problem(sparse=True, maximize=False, standardized=False)
+        p.preprocess_functions(is_function_input_normalized=False)
+        for x in (np.array([0.75, 0.0, 1.0]), np.array([1.0, 0.5 + _SEED, 0.5])):
+            p.objective.evaluate(x)
+            p.constraints[1].evaluate(x)
     else:
         raise ValueError(kind)
     return p
@@ -614,9 +668,83 @@ def _same_field(a, b) -> bool:
         if not (isinstance(a, Mapping) and isinstance(b, Mapping)) or set(a) != set(b):
             return False
         return all(_same_field(a[k], b[k]) for k in a)
+    # oracle boundary: a sparse matrix (gradients of sparse linear constraints) may come back dense, values equal
+    if hasattr(a, "toarray"):
+        a = a.toarray()
+    if hasattr(b, "toarray"):
+        b = b.toarray()
     if isinstance(a, np.ndarray) or isinstance(b, np.ndarray):
         return np.shape(a) == np.shape(b) and np.array_equal(np.asarray(a), np.asarray(b))
     return _plain(a) == _plain(b)
+
+
+# public descriptive attributes of a problem that to_hdf does not iterate over (plain, then derived ones)
+EXTRA_DESCRIPTION = [
+    "use_standardized_objective",
+    "objective_name",
+    "standardized_objective_name",
+    "is_mono_objective",
+    "function_names",
+    "scalar_constraint_names",
+    "equality_constraint_names",
+    "inequality_constraint_names",
+]
+# written by to_hdf but read back by nothing, accepted (oracle boundary): ``result.design_space`` is an ad-hoc
+# attribute set by BaseDriverLibrary._post_run that no code ever reads; it is written as the list of variable names
+ACCEPTED_NOT_RESTORED = {"solution/design_space"}
+
+
+def _descr(problem, name: str):
+    """The value of a descriptive attribute, by the name used in the file / in the class."""
+    try:
+        if name == "ineq_tolerance":
+            return problem.tolerances.inequality
+        if name == "eq_tolerance":
+            return problem.tolerances.equality
+        if name == "equality_constraint_names":
+            return sorted(c.name for c in problem.constraints.get_equality_constraints())
+        if name == "inequality_constraint_names":
+            return sorted(c.name for c in problem.constraints.get_inequality_constraints())
+        value = getattr(problem, name)
+        if name in ("function_names", "scalar_constraint_names"):
+            return sorted(value)  # the order of the constraints is not part of the statement
+        return value
+    except Exception as e:  # e.g. is_mono_objective when the dimension cannot be determined
+        return f"raises {type(e).__name__}"
+
+
+def _file_keys_not_compared(path: str, node: str) -> list[str]:
+    """Everything to_hdf wrote that is neither compared by ``compare_problem`` nor a known container.
+
+    The compared sets are taken from the serialization code: ``_OPTIM_DESCRIPTION``, ``DICT_REPR_ATTR`` and the
+    fields of ``OptimizationResult`` (+ ``constr:*`` / ``constr_grad:*``).
+    """
+    from dataclasses import fields
+
+    import h5py
+    from gemseo.algos.design_space import DesignSpace
+    from gemseo.algos.optimization_problem import OptimizationProblem as OP
+    from gemseo.algos.optimization_result import OptimizationResult
+    from gemseo.core.mdo_functions.mdo_function import MDOFunction
+
+    sol = {f.name for f in fields(OptimizationResult)}
+    out = []
+    with h5py.File(path, "r") as f:
+        root = f[node] if node else f
+        known = {"x", "k", "v", DesignSpace.DESIGN_SPACE_GROUP, OP._OPT_DESCR_GROUP, OP._OBJECTIVE_GROUP, OP._CONSTRAINTS_GROUP, OP._OBSERVABLES_GROUP, OP._SOLUTION_GROUP, "x_0_as_dict", "x_opt_as_dict"}
+        out += [k for k in root if k not in known]
+        out += [f"{OP._OPT_DESCR_GROUP}/{k}" for k in root[OP._OPT_DESCR_GROUP] if k not in OP._OPTIM_DESCRIPTION]
+        groups = [(OP._OBJECTIVE_GROUP, root[OP._OBJECTIVE_GROUP])]
+        for g in (OP._CONSTRAINTS_GROUP, OP._OBSERVABLES_GROUP):
+            if g in root:
+                groups += [(f"{g}/{n}", root[g][n]) for n in root[g]]
+        for label, grp in groups:
+            out += [f"{label}/{k}" for k in grp if k not in MDOFunction.DICT_REPR_ATTR]
+        if OP._SOLUTION_GROUP in root:
+            out += [f"{OP._SOLUTION_GROUP}/{k}" for k in root[OP._SOLUTION_GROUP] if k not in sol and not k.startswith(("constr:", "constr_grad:"))]
+        if node:  # nothing of the problem may land outside its node
+            out += [f"/{k}" for k in f if k != node.split("/")[0]]
+    return out
 
 
 def compare_problem(p, q) -> list[tuple[str, str, str]]:
@@ -645,15 +773,19 @@ def compare_problem(p, q) -> list[tuple[str, str, str]]:
     funcs("objective", [p.objective], [q.objective])
     funcs("constraint", list(p.constraints), list(q.constraints))
     funcs("observable", list(p.observables), list(q.observables))
-    for label, u, v in (
-        ("tolerances", (p.tolerances.equality, p.tolerances.inequality), (q.tolerances.equality, q.tolerances.inequality)),
-        ("minimize_objective", p.minimize_objective, q.minimize_objective),
-        ("differentiation_method", p.differentiation_method, q.differentiation_method),
-        ("differentiation_step", p.differentiation_step, q.differentiation_step),
-        ("is_linear", p.is_linear, q.is_linear),
-    ):
-        if not _same_field(u, v):
-            bad.append((f"problem-{label}", "description", f"{label}{' (equality, inequality)' if label == 'tolerances' else ''}: {u!r} reloaded as {v!r}"))
+    # the description attributes are enumerated from the list to_hdf itself iterates over, then the other public
+    # descriptive attributes (plain or derived) of an optimization problem
+    tol = []
+    for name in [*type(p)._OPTIM_DESCRIPTION, *EXTRA_DESCRIPTION]:
+        u, v = _descr(p, name), _descr(q, name)
+        if _same_field(u, v):
+            continue
+        if name in ("eq_tolerance", "ineq_tolerance"):
+            tol.append(f"{name}: {u!r} reloaded as {v!r}")
+        else:
+            bad.append((f"problem-{name}", "description", f"{name}: {u!r} reloaded as {v!r}"))
+    if tol:
+        bad.append(("problem-tolerances", "description", "tolerances: " + "; ".join(tol)))
     if (p.solution is None) != (q.solution is None):
         bad.append(("problem-solution-presence", "solution", f"{p.solution!r} reloaded as {q.solution!r}"))
     elif p.solution is not None:
@@ -678,6 +810,15 @@ def _r2_observe(case: dict):
             return [("problem-roundtrip-raises", type(e).__name__, f"{type(e).__name__}: {str(e)[:300]}")], "raised", {}
         bad = compare_problem(p, q)
         obs = {"constraints": [c.name for c in p.constraints], "constraints_reloaded": [c.name for c in q.constraints]}
+        stray = _file_keys_not_compared(path, node)
+        obs["written_not_restored"] = sorted({k for k in stray if k in ACCEPTED_NOT_RESTORED})
+        for k in stray:
+            if k not in ACCEPTED_NOT_RESTORED:
+                bad.append(("problem-written-but-not-restored", "file-key", f"to_hdf wrote {k!r}, which from_hdf does not restore / the check does not compare"))
+        # original_name is not in MDOFunction.DICT_REPR_ATTR (not serialized by design): observation only
+        fp = {f.name: f.original_name for f in [p.objective, *p.constraints, *p.observables]}
+        fq = {f.name: f.original_name for f in [q.objective, *q.constraints, *q.observables]}
+        obs["original_name_lost"] = sorted(n for n in fp if n in fq and fp[n] != fq[n])
     finally:
         if os.path.exists(path):
             os.remove(path)
@@ -689,6 +830,10 @@ def _r2_case(case, tally):
     tally.case(["R2", case], nontrivial=True, outcome="problem:" + outcome, sample=case)
     if obs and obs["constraints"] != obs["constraints_reloaded"]:
         tally.count("R2_constraint_order_changed_by_reload")
+    for k in (obs or {}).get("written_not_restored", []):
+        tally.count(f"R2_written_but_not_restored:{k}")
+    if (obs or {}).get("original_name_lost"):
+        tally.count("R2_function_original_name_not_serialized")
     for inv, kind, msg in bad:
         tally.violation({"invariant": inv, "op": "problem.hdf", "value_kind": kind}, {"part": "R2", **case}, f"{inv}: {msg}\n  case={case}")
 
@@ -888,6 +1033,8 @@ def run(ctx):
             "the order of names inside one database entry and the order of constraints/observables of a reloaded problem are not compared",
             "text format: reloaded == original to half a unit of the 16th significant digit (+ half an ulp)",
             "empty design spaces are not enumerated (from_hdf refuses them by design)",
+            "R2: compared attributes are enumerated from OptimizationProblem._OPTIM_DESCRIPTION, MDOFunction.DICT_REPR_ATTR and the fields of OptimizationResult, plus the public derived ones; every key found in the written file must belong to these sets",
+            "R2: accepted: sparse constraint gradients reload dense; solution/design_space (ad-hoc, never read) is written but not restored; MDOFunction.original_name is not serialized (counted, not a violation)",
         ],
     }
 
